@@ -37,7 +37,7 @@ def knobs_membership():
     return flat.Knobs(foreign_models=True, max_models=4, p_raise=0.03, p_cmds=0.2, p_on_exception=0.2, p_queued=0.3,
                       cmd_kinds=(TRIGGER, TRIGGER, DISPATCH, REMOVE, ADD),
                       hist_kinds=(TRIGGER, TRIGGER, DISPATCH, DISPATCH, REMOVE, ADD, ADD), p_unknown_event=0.03,
-                      max_history=10)
+                      max_history=10, p_custom_attr=0.15, p_ignore_flip=0.15)
 
 
 def knobs_classes():
@@ -71,9 +71,13 @@ class CheckedRun(flat.FlatRun):
             want = ['trigger', 'may_trigger']
             for ev, _ts in self.d.events:
                 want += [flat.ename(ev), 'may_' + flat.ename(ev)]
-            for s in self.d.states:
-                want.append('is_' + flat.sname(s['name']))
+            attr = getattr(self.d, 'model_attr', 'state')
             missing = [w for w in want if w not in mo.__dict__]
+            for s in self.d.states:
+                # flat classes put the model_attribute into the helper name, the hierarchical ones do not
+                names = ['is_' + flat.sname(s['name']), 'is_%s_%s' % (attr, flat.sname(s['name']))]
+                if not any(nm in mo.__dict__ for nm in names):
+                    missing.append(names[-1])
             if missing:
                 self.problems.append(('helpers-missing-after-add_model', c[1], missing[:4]))
         return r
@@ -444,6 +448,7 @@ def two_machines_case(rng):
     out = []
     kn = flat.Knobs(max_models=2, p_unknown_event=0.0, max_history=8)
     d = flat.gen_flat(rng, kn)
+    d.model_attr = 'state'       # the second machine uses 'mode'
     alone = flat.FlatRun(d).run()
     both = flat.FlatRun(d)
     from transitions import Machine
